@@ -308,3 +308,45 @@ func TestZZReplay(t *testing.T) {
 		},
 	})
 }
+
+func init() {
+	// createDisk cleanup (C12/C06): a refused snapshot request must not unlink files it did not create.
+	replayTemplates = append(replayTemplates, replayTemplate{
+		match: func(o *Obligation) bool {
+			return o.Fn == "replica.Replica.createDisk" && strings.HasPrefix(o.Kind, "callpre:rmDisk#ownfiles")
+		},
+		scripted: true,
+		pkg:      "replica",
+		tags:     "debug",
+		gen: func(o *Obligation, vals map[string]string) (string, bool) {
+			body := `
+func TestZZReplay(t *testing.T) {
+	dir, err := ioutil.TempDir("", "zzreplay")
+	zzMust(t, err)
+	defer os.RemoveAll(dir)
+	r, err := New(true, 4*zzB, zzB, dir, nil, "Backend")
+	zzMust(t, err)
+	defer r.Close()
+	zzMust(t, r.SetReplicaMode("RW"))
+	_, err = r.WriteAt(zzFill(1, zzB), 0)
+	zzMust(t, err)
+	zzMust(t, r.Snapshot("000", true, "t0"))
+	_, err = r.WriteAt(zzFill(2, zzB), 0)
+	zzMust(t, err)
+	// a second request with the same name is refused ...
+	if err := r.Snapshot("000", true, "t1"); err == nil {
+		t.Fatal("replay setup: duplicate snapshot accepted")
+	}
+	// ... and must leave the existing snapshot's files alone
+	for _, f := range []string{"volume-snap-000.img", "volume-snap-000.img.meta"} {
+		if _, serr := os.Stat(dir + "/" + f); serr != nil {
+			t.Fatalf("REPLAY-REPRODUCED: refused Snapshot(\"000\") unlinked %s of the existing snapshot: %v", f, serr)
+		}
+	}
+	t.Log("REPLAY-NOT-REPRODUCED")
+}
+`
+			return diskPrelude + body, true
+		},
+	})
+}
